@@ -10,7 +10,9 @@ is a `filterMap` to `(estimate, variance)` pairs followed by `combine`.  These l
 
 * `foldl_two_acc`    the two-accumulator fold is `filter` + two `map`s (i.e. `unzip` of the `filterMap`);
 * `block_core`       the whole block, for an arbitrary test `c` and arbitrary per-item variance `g` / estimate `h`;
-* `estimates_eq_filter`  under the two numerical contracts the filtered list is `Total.estimates`.
+* `LsmrOK`           the numerical contract on `lsmr` / `np.allclose` (minimum-norm solution on consistent systems,
+                     test fails on inconsistent ones, `allclose(ones, ones)`);
+* `estimates_eq_filter`  under `LsmrOK` the filtered list is `Total.estimates`.
 
 `K` is a field with a linear order (no compatibility between the two is needed here).
 -/
@@ -106,30 +108,78 @@ theorem estimates_cons (m : Meas K) (ms : List (Meas K)) :
   rw [List.filterMap_cons]
   cases unbiasedVec m.Q <;> rfl
 
-/-- under the two contracts (`lsmr` returns the minimum-norm solution — only needed for the matrices that occur —
-and `allclose` read exactly) the items kept by the loop, with their `(estimate, variance)`, are `Total.estimates` -/
-theorem estimates_eq_filter {P : Type} (lsmrSolve : List (List K) → List K) (allclose : List K → List K → Bool)
+omit [LinearOrder K] in
+/-- **the system `Qᵀ v = 1` is consistent**, as the model decides it: the certified minimum-norm vector exists.
+For a rectangular non-empty `Q` over an ordered field this is exactly "the ones vector is in the row space of `Q`"
+(`qualifies_iff_rowspace`, Proofs/TotalSem.lean; restated as `C09G.qualifies_iff_consistent`) -/
+def qualifies [DecidableEq K] (Q : List (List K)) : Bool := (unbiasedVec Q).isSome
+
+omit [LinearOrder K] in
+theorem qualifies_iff [DecidableEq K] (Q : List (List K)) :
+    qualifies Q = true ↔ matTVec Q (minNormSol Q) = List.replicate (ncols Q) (1 : K) := by
+  unfold qualifies
+  rw [unbiasedVec_eq]
+  split <;> simp_all
+
+/-- **the numerical contract on `lsmr` / `np.allclose`**, for the measurement tuples `(Q, y, noise, proj)` of a list —
+what scipy guarantees in exact arithmetic and what the block needs, no more:
+
+* `consistent`: if `Qᵀ v = 1` has a solution, `lsmr(Q.T, ones, atol=0, btol=0)[0]` is its minimum-norm solution, as the
+  model computes it (`minNormSol Q = Q (QᵀQ)⁺ 1`);
+* `inconsistent`: if it has none, then whatever `lsmr` returns (scipy: the least-squares solution, e.g. `0.6` for
+  `Q = [[1, 2]]`, NOT `minNormSol Q = 1`) fails the test `np.allclose(Q.T.dot(v), ones)` — nothing is assumed about
+  the returned vector itself;
+* `accepts_ones`: the test accepts the exact right-hand side, `np.allclose(ones, ones)` (true of the tolerance test).
+
+Nothing else about `allclose` is used. -/
+structure LsmrOK {P : Type} (lsmrSolve : List (List K) → List K) (allclose : List K → List K → Bool)
+    (ms : List (List (List K) × List K × K × P)) : Prop where
+  consistent : ∀ t ∈ ms, qualifies t.1 = true → lsmrSolve t.1 = minNormSol t.1
+  inconsistent : ∀ t ∈ ms, qualifies t.1 = false →
+    allclose (matTVec t.1 (lsmrSolve t.1)) (List.replicate (ncols t.1) (1 : K)) = false
+  accepts_ones : ∀ t ∈ ms, qualifies t.1 = true →
+    allclose (List.replicate (ncols t.1) (1 : K)) (List.replicate (ncols t.1) (1 : K)) = true
+
+theorem LsmrOK.tail {P : Type} {lsmrSolve : List (List K) → List K} {allclose : List K → List K → Bool}
+    {t : List (List K) × List K × K × P} {ms : List (List (List K) × List K × K × P)}
+    (h : LsmrOK lsmrSolve allclose (t :: ms)) : LsmrOK lsmrSolve allclose ms :=
+  ⟨fun s hs => h.consistent s (List.mem_cons_of_mem _ hs), fun s hs => h.inconsistent s (List.mem_cons_of_mem _ hs),
+    fun s hs => h.accepts_ones s (List.mem_cons_of_mem _ hs)⟩
+
+/-- the former, stronger reading (`lsmr` = the model's formula on EVERY matrix of the list, `allclose` = exact equality)
+implies the contract — it is satisfiable only by an `lsmr` that returns `Q (QᵀQ)⁺ 1` on inconsistent systems too, which
+scipy's does not; kept as a sufficient condition (the model's own solver satisfies it) -/
+theorem LsmrOK.of_exact {P : Type} (lsmrSolve : List (List K) → List K) (allclose : List K → List K → Bool)
     (ms : List (List (List K) × List K × K × P))
     (hl : ∀ t ∈ ms, lsmrSolve t.1 = minNormSol t.1)
-    (ha : ∀ a b, allclose a b = decide (a = b)) :
+    (ha : ∀ a b, allclose a b = decide (a = b)) : LsmrOK lsmrSolve allclose ms := by
+  refine ⟨fun t ht _ => hl t ht, fun t ht hq => ?_, fun t _ _ => by rw [ha]; simp⟩
+  rw [ha, hl t ht, decide_eq_false_iff_not, ← qualifies_iff, hq]
+  simp
+
+/-- under the contract `LsmrOK` the items kept by the loop, with their `(estimate, variance)`, are `Total.estimates` -/
+theorem estimates_eq_filter {P : Type} (lsmrSolve : List (List K) → List K) (allclose : List K → List K → Bool)
+    (ms : List (List (List K) × List K × K × P)) (hl : LsmrOK lsmrSolve allclose ms) :
     (ms.filter (fun t => decide (allclose (matTVec t.1 (lsmrSolve t.1)) (List.replicate (ncols t.1) (1 : K)) = true))).map
         (fun t => (dot (lsmrSolve t.1) t.2.1, powNat t.2.2.1 2 * dot (lsmrSolve t.1) (lsmrSolve t.1)))
       = estimates (ms.map toMeas) := by
-  obtain rfl : allclose = fun a b => decide (a = b) := funext fun a => funext fun b => ha a b
   induction ms with
   | nil => rfl
   | cons t ms ih =>
-    have ht := hl t (List.mem_cons_self)
-    have ih' := ih (fun s hs => hl s (List.mem_cons_of_mem _ hs))
-    rw [List.map_cons, estimates_cons, ← ih', unbiasedVec_eq, show (toMeas t).Q = t.1 from rfl, ← ht,
-      List.filter_cons]
-    simp only [decide_eq_true_eq]
-    by_cases hq : matTVec t.1 (lsmrSolve t.1) = List.replicate (ncols t.1) (1 : K)
-    · rw [if_pos hq, if_pos hq]
-      simp only [List.map_cons, Option.map_some, powNat_two, toMeas, List.cons_append, List.nil_append,
-        Option.toList_some]
-    · rw [if_neg hq, if_neg hq]
-      simp only [Option.map_none, Option.toList_none, List.nil_append]
+    have ih' := ih hl.tail
+    rw [List.map_cons, estimates_cons, ← ih', unbiasedVec_eq, show (toMeas t).Q = t.1 from rfl, List.filter_cons]
+    by_cases hq : matTVec t.1 (minNormSol t.1) = List.replicate (ncols t.1) (1 : K)
+    · have hq' := (qualifies_iff t.1).mpr hq
+      have ht := hl.consistent t List.mem_cons_self hq'
+      have hc := hl.accepts_ones t List.mem_cons_self hq'
+      rw [if_pos hq, ht, hq, hc]
+      simp only [decide_true, if_true, List.map_cons, Option.map_some, powNat_two, toMeas, List.cons_append,
+        List.nil_append, Option.toList_some, ht]
+    · have hq' : qualifies t.1 = false := by
+        rw [← Bool.not_eq_true, qualifies_iff]; exact hq
+      have hc := hl.inconsistent t List.mem_cons_self hq'
+      rw [if_neg hq, hc]
+      simp only [Bool.false_eq_true, decide_false, if_false, Option.map_none, Option.toList_none, List.nil_append]
 
 /-- the shape of the source block: a loop over the measurements `(Q, y, noise, proj)` appending
 `noise² ⟨v,v⟩` / `⟨v,y⟩` for `v = lsmrSolve Q` when `allclose (Qᵀ v) 1`, then the inverse-variance combination -/
@@ -142,14 +192,12 @@ def blockOf {P : Type} (lsmrSolve : List (List K) → List K) (allclose : List K
   if (st.2.length == 0) = true then (1 : K)
   else pyMax 1 ((1 / npSum (st.1.map (fun x => 1 / x))) * npSum (List.zipWith (fun a b => a / b) st.2 st.1))
 
-/-- **the block is the model**: under the two contracts, `blockOf` is `Total.totalEstimate` -/
+/-- **the block is the model**: under the contract `LsmrOK`, `blockOf` is `Total.totalEstimate` -/
 theorem blockOf_eq_totalEstimate {P : Type} (lsmrSolve : List (List K) → List K) (allclose : List K → List K → Bool)
-    (ms : List (List (List K) × List K × K × P))
-    (hl : ∀ t ∈ ms, lsmrSolve t.1 = minNormSol t.1)
-    (ha : ∀ a b, allclose a b = decide (a = b)) :
+    (ms : List (List (List K) × List K × K × P)) (hl : LsmrOK lsmrSolve allclose ms) :
     blockOf lsmrSolve allclose ms = totalEstimate (ms.map toMeas) := by
   unfold blockOf totalEstimate
-  rw [← estimates_eq_filter lsmrSolve allclose ms hl ha]
+  rw [← estimates_eq_filter lsmrSolve allclose ms hl]
   exact block_core _ _ _ ms
 
 /-- read from the model's side: model records with any `proj` attached, contracts instantiated by the model's own
@@ -161,7 +209,7 @@ theorem blockOf_of_meas {P : Type} (meas : List (Meas K)) (proj : Meas K → P) 
     simp only [List.map_map]
     exact List.map_id' meas
   have h := blockOf_eq_totalEstimate minNormSol (fun a b => decide (a = b))
-    (meas.map (fun m => (m.Q, m.y, m.noise, proj m))) (fun _ _ => rfl) (fun _ _ => rfl)
+    (meas.map (fun m => (m.Q, m.y, m.noise, proj m))) (LsmrOK.of_exact _ _ _ (fun _ _ => rfl) (fun _ _ => rfl))
   rw [hm] at h
   exact h
 
